@@ -463,3 +463,77 @@ func checkC18Positional(c *Ctx, n int) {
 		})
 	}
 }
+
+// checkC18Values: an option of a completing type (the harness' Color: red, green, blue, grey) under an
+// ASCII or multi-byte short name and a long name, among other options; the last word spells the
+// option with a partial value in every documented form.  What must be offered is stated here: the
+// type's completions of the partial value, in order, re-attached to the spelling used.
+func checkC18Values(c *Ctx, n int) {
+	r := c.Rng
+	colors := []string{"blue", "green", "grey", "red"}
+	for i := 0; i < n; i++ {
+		short := []string{"c", "k", "ç", "é", "λ", "日", "C", "5"}[r.Intn(8)]
+		long := []string{"color", "colour", "färg", "c.tone"}[r.Intn(4)]
+		ty := []string{"c2", "c2", "Lc2"}[r.Intn(3)]
+		root := &StructDesc{Fields: []FieldDesc{
+			{Name: "V", Exported: true, Kind: "v", Ty: "bool", Tag: `short:"v" long:"verbose"`},
+			{Name: "N", Exported: true, Kind: "v", Ty: "str", Tag: `short:"n" long:"name"`},
+			{Name: "Col", Exported: true, Kind: "v", Ty: ty, Tag: quoteTag("short", short) + " " + quoteTag("long", long)},
+		}}
+		cs := &Case{Name: "app", NsDelim: ".", EnvNsDelim: "_"}
+		cs.Build = append(cs.Build, BuildOp{Kind: "addgroup", Target: 1, Short: "Application Options", Struct: root})
+		var args []string
+		for j := r.Intn(3); j > 0; j-- {
+			args = append(args, [][]string{{"-v"}, {"--name=x"}, {"-n", "x"}, {"--" + long + "=red"}, {"-" + short + "blue"}}[r.Intn(5)]...)
+		}
+		part := []string{"", "r", "g", "gr", "gre", "b", "z", "red", "R"}[r.Intn(9)]
+		form := []string{"--name=V", "--name V", "-xV", "-x=V", "-x V"}[r.Intn(5)]
+		prefix := ""
+		switch form {
+		case "--name=V":
+			prefix = "--" + long + "="
+			args = append(args, prefix+part)
+		case "--name V":
+			args = append(args, "--"+long, part)
+		case "-xV":
+			prefix = "-" + short
+			args = append(args, prefix+part)
+		case "-x=V":
+			prefix = "-" + short + "="
+			args = append(args, prefix+part)
+		case "-x V":
+			args = append(args, "-"+short, part)
+		}
+		want := []string{}
+		for _, col := range colors {
+			if strings.HasPrefix(col, part) {
+				want = append(want, prefix+col)
+			}
+		}
+		cs.Ops = []Op{{Kind: "complete", Args: args}}
+		cs.Description = describeOps(cs)
+		c.RunCases([]*Case{cs}, func(cr *CaseResult) {
+			c.classifyCase(cr)
+			c.Class(fmt.Sprintf("c18/value form=%s multibyte-short=%v matches=%d", form, len(short) > 1, len(want)))
+			c.Distinct(cs.Description)
+			compL := firstLine(cr.Impl, "COMP ")
+			in := map[string]interface{}{"case": cs.Description, "args": args, "option": "-" + short + ", --" + long, "form": form, "partial_value": part}
+			if compL == "" {
+				in["case_file"] = c.saveCase(cr)
+				c.Check("value-completions-are-the-types-re-attached-to-the-spelling", false, "C18:value-completion", in, strings.Join(cr.Impl, " | "), fmt.Sprintf("%q", want))
+				return
+			}
+			ws := strings.Fields(compL)
+			var items []string
+			for j := 2; j < len(ws); j += 2 {
+				s, _ := unhx(ws[j])
+				items = append(items, s)
+			}
+			ok := fmt.Sprintf("%q", items) == fmt.Sprintf("%q", want) || (len(items) == 0 && len(want) == 0)
+			if !ok {
+				in["case_file"] = c.saveCase(cr)
+			}
+			c.Check("value-completions-are-the-types-re-attached-to-the-spelling", ok, "C18:value-completion", in, fmt.Sprintf("%q", items), fmt.Sprintf("%q", want))
+		})
+	}
+}
